@@ -214,7 +214,7 @@ package blob
 // back as that failure and never as ErrBlobNotFound, which getBlobs would turn into an empty success.
 // $NDOther: the getter failed with something else than shwap.ErrNotFound. Assumed of the share layer: its
 // errors never wrap the blob package's sentinel.)
-//@ extern (github.com/celestiaorg/celestia-node/share/shwap.Getter).GetNamespaceData
+//@ extern local (github.com/celestiaorg/celestia-node/share/shwap.Getter).GetNamespaceData
 //@   ensures !is(err, ErrBlobNotFound)
 //@   effect $NDOther := err != nil && !is(err, shwap.ErrNotFound)
 //@ func (*Service).retrieve
